@@ -5,6 +5,7 @@ import (
 	"math"
 
 	"github.com/sanonone/kektordb/pkg/core/distance"
+	"github.com/sanonone/kektordb/pkg/core/types"
 	rt "github.com/sanonone/kektordb/pkg/zzverifrt"
 )
 
@@ -268,6 +269,22 @@ func zzFocusedOp(e *Engine, keys [2]string, family int) {
 			rt.Assert(e.RewriteAOF() == nil, "RewriteAOF succeeds")
 			rt.Reach("rewrite")
 		}
+	case 4: // maintenance and batch: add / delete / vacuum / batch add / reinforce, with compaction
+		switch rt.IntRange("fop", 0, 5) {
+		case 0:
+			e.VAdd("i0", "a", []float32{2}, zzMeta(2))
+		case 1:
+			e.VDelete("i0", "a")
+		case 2:
+			rt.Assert(e.VTriggerMaintenance("i0", "vacuum") == nil, "vacuum succeeds")
+		case 3:
+			e.VAddBatch("i0", []types.BatchObject{{Id: "b", Vector: []float32{3}, Metadata: zzMeta(3)}, {Id: "a", Vector: []float32{4}}})
+		case 4:
+			e.VReinforce("i0", []string{"a"})
+		case 5:
+			rt.Assert(e.RewriteAOF() == nil, "RewriteAOF succeeds")
+			rt.Reach("rewrite")
+		}
 	}
 }
 
@@ -277,7 +294,7 @@ func ZZVerifC01Focused() {
 	keys := [2]string{"k0", "k1"}
 	e := zzOpen()
 	rt.Assert(e.VCreate("i0", distance.Euclidean, 2, 4, distance.Float32, "", nil, nil, nil) == nil, "prelude: VCreate succeeds")
-	family := rt.IntRange("family", 0, 3)
+	family := rt.IntRange("family", 0, 4)
 	depth := rt.Param("DEPTH", 3)
 	if family == 0 {
 		depth++ // the key-value family is small: one level deeper
